@@ -130,6 +130,15 @@ def run_case(case, prefix):
             # complete handshake and the server's first frames, then cut and reconnect
             deliver_loop(0, stop_after=lambda: w._written[0] if w.responders[0].phase == "transport" else 1 << 30,
                          use_cuts=False)
+        elif hist == "close-mid-bigframe":
+            # established session; the connection is cut in the middle of a long server frame
+            deliver_loop(0, stop_after=lambda: w._written[0] if w.responders[0].phase == "transport" else 1 << 30,
+                         use_cuts=False)
+            from yowsup.structs.protocoltreenode import ProtocolTreeNode as _N
+            w.server_send(0, _N("ack", {"id": "big", "class": "message", "from": "4922@s.whatsapp.net", "t": "1600000999"},
+                                None, bytes(bytearray((i * 7) & 0xFF for i in range(1500)))))
+            w.sent_by_server[0].pop()       # never completely delivered
+            w.deliver(0, 200)
         w.dispatchers[0].handle_close()
         w.pump_detached()
         w.connect()
@@ -282,9 +291,9 @@ def cases_for(tier):
         cases.append({"variant": var, "corrupt": True, "cuts": [], "burst": 0, "nsend": 0, "history": "fresh"})
         if not quick:
             cases.append({"variant": var, "corrupt": True, "cuts": [[0, "mid"]], "burst": 0, "nsend": 0, "history": "fresh"})
-        for hist in ("close-before-hello", "close-mid-hello", "close-after-hello", "close-after-transport"):
+        for hist in ("close-before-hello", "close-mid-hello", "close-after-hello", "close-after-transport", "close-mid-bigframe"):
             if quick and (var, hist) not in (("XX", "close-before-hello"), ("XX", "close-after-hello"), ("XX", "close-after-transport"),
-                                             ("IK", "close-before-hello"), ("IK", "close-after-transport"),
+                                             ("IK", "close-before-hello"), ("IK", "close-mid-bigframe"),
                                              ("XXfallback", "close-mid-hello")):
                 continue
             cases.append({"variant": var, "cuts": [], "burst": 1, "nsend": 1, "history": hist})
